@@ -173,7 +173,7 @@ func runC14(p *kit.Program, r *kit.Report) {
 	}
 	r.Count("announcement_literals", n)
 	r.Count("announcement_literals_numbered_locally", nLocal)
-	r.Require(n >= 6, "floor: %d announcement literals with OriginAgent and Sequence found, expected at least 6", n)
+	r.Require(n >= 3, "floor: %d announcement literals with OriginAgent and Sequence found, expected at least 3", n)
 	r.Require(nLocal >= 3, "floor: %d announcement literals numbered from a local counter, expected at least 3", nLocal)
 
 	// ---------------- R2
@@ -214,5 +214,5 @@ func runC14(p *kit.Program, r *kit.Report) {
 		}
 	}
 	r.Count("forwarded_message_literals", nFwd)
-	r.Require(nFwd >= 5, "floor: %d forwarded message literals reachable from the receive entry points, expected at least 5", nFwd)
+	r.Require(nFwd >= 3, "floor: %d forwarded message literals reachable from the receive entry points, expected at least 3", nFwd)
 }
